@@ -29,7 +29,8 @@ def entries(pid):
 def match(pid, sub, kind, case, detail=''):
     from . import known_preds
     for e in entries(pid):
-        if e.get('sub') not in (None, sub):
+        es = e.get('sub')
+        if es is not None and (sub not in es if isinstance(es, list) else es != sub):
             continue
         if e.get('kind') not in (None, kind):
             continue
